@@ -22,6 +22,26 @@ prop("C10", True,
      "guarded CFG reachability (enabling-edge deletion) + who-may-touch + shape rules over go/ssa",
      "DESIGN.md §2 C10")
 
+prop("C08", True,
+     "Static check of the service-selection mechanism over all configurations, inputs and paths: peek typestate in the selector (monotone-cell "
+     "reasoning: after Peek consumed bytes every successful return hands out the peeking connection), Peek at most once, detector sees exactly the "
+     "peeked bytes, ascending scan with first acceptor returning, single-candidate shortcut, replay shape of peekConnection.Read/Peek (private copy of "
+     "exactly p[:n], buffer served first and re-sliced by the copied count, under the mutex), dispatcher hand-over (selector's connection wrapped by the "
+     "idle timeout, nil-service guard, deferred close), compareAddr accept conditions, timeoutConn delegation. Does not decide whether one Peek sees enough "
+     "bytes for a detector when the first segment is short.",
+     "Trusts listener net.Conn implementations to deliver bytes in order; detectors are pure predicates on the prefix.",
+     "typestate over go/ssa CFG (edge-dominance conditions + monotone-cell guard analysis), guarded reachability, value-provenance shape rules",
+     "DESIGN.md §2 C08")
+
+prop("C19", True,
+     "Static check for all configurations: ToAddr's accept set from its dominating conditions (two parts, ParseUint(port,10,16), tcp/udp with the matching resolver, "
+     "every other arm refuses with an error) and, in Run, guarded reachability: hc.ports[addr]=… and AddAddress(addr) are unreachable from a port string's ToAddr call "
+     "once any enabling edge (no error, non-nil address, at least one resolved service, not a compareAddr-duplicate of an existing key) is deleted; service list fresh per entry "
+     "and built only from serviceList hits over the entry's names with unknown names continuing; both spellings feed the list; only Run writes the table.",
+     "Trusts net.Resolve*Addr / strconv.ParseUint and the listener back ends' binding.",
+     "guarded CFG reachability (enabling-edge deletion) + dominating-condition extraction + provenance over go/ssa",
+     "DESIGN.md §2 C19")
+
 PENDING = {
  "C01": "check not built yet in this revision (design: DESIGN.md §2 C01)",
 }
